@@ -112,7 +112,7 @@ def main():
             shutil.copytree(os.path.join(REPO, 's3transfer'), os.path.join(scratch, 's3transfer'), ignore=shutil.ignore_patterns('__pycache__'))
             open(os.path.join(scratch, 's3transfer', modfile), 'w').write(ast.unparse(tree) + '\n')
             worst = 0
-            for prop in props:
+            for prop in props[:int(os.environ.get('NEUTRAL_MAX_PROPS', '2'))]:
                 env = dict(os.environ, PYVC_REPO=scratch, PYVC_OUT=os.path.join(scratch, 'out'), PYVC_SELFTEST_CHILD='1')
                 p = subprocess.run([os.path.join(V, 'check'), prop], cwd=V, env=env, capture_output=True, text=True, timeout=3600)
                 fails = sorted(set(l.split('failed obligation: ')[1].split(' ')[0].split('#')[0] for l in p.stdout.splitlines() if 'failed obligation: ' in l))
